@@ -20,7 +20,7 @@ type BodyFault int
 const (
 	BodyOK    BodyFault = iota
 	BodyError           // reader returns an error after Cut bytes
-	BodyShort           // body ends (EOF) after Cut bytes
+	BodyShort           // body ends after Cut bytes although more was announced (io.ErrUnexpectedEOF)
 )
 
 type HTTPReq struct {
@@ -127,6 +127,10 @@ func (f *faultReader) Read(p []byte) (int, error) {
 	if f.pos >= limit {
 		if f.fault == BodyError {
 			return 0, errors.New("simulated body read error")
+		}
+		if f.fault == BodyShort {
+			// what net/http reports when the peer closes before Content-Length bytes arrived
+			return 0, io.ErrUnexpectedEOF
 		}
 		return 0, io.EOF
 	}
